@@ -95,6 +95,23 @@ func (p *Prog) globalStateScan(pkgSuffixes []string) []structFinding {
 				case ssa.CallInstruction:
 					c := x.Common()
 					args := append([]ssa.Value{}, c.Args...)
+					// a map or slice LOADED from a package-level variable and handed to a (non-builtin)
+					// callee: the callee may keep or write the shared container (a shared empty map used
+					// as "no data" receives every render's params)
+					if _, isBuiltin := c.Value.(*ssa.Builtin); !isBuiltin {
+						for _, a := range args {
+							switch a.Type().Underlying().(type) {
+							case *types.Map, *types.Slice:
+							default:
+								continue
+							}
+							if ld, ok := a.(*ssa.UnOp); ok {
+								if g, ok := ld.X.(*ssa.Global); ok {
+									bad[g.Name()] = "hands the map / slice held in package-level variable " + g.Name() + " to a callee"
+								}
+							}
+						}
+					}
 					for _, a := range args {
 						pt, isPtr := a.Type().Underlying().(*types.Pointer)
 						if !isPtr {
